@@ -7,7 +7,7 @@ VERIF="$(cd "$(dirname "$0")/.." && pwd)"
 REPO="${VERIF_REPO:-/repo}"
 export GOFLAGS=-mod=mod GOPROXY=off GOSUMDB=off GOTOOLCHAIN=local CGO_ENABLED=1
 GO=go1.26.8
-B="$VERIF/.build"
+B="${VERIF_BUILD:-$VERIF/.build}"
 mkdir -p "$B"
 engine="$1"; shift || true
 python3 "$VERIF/tools/mkoverlay.py" "$REPO" "$VERIF" "$B" "$engine"
